@@ -190,6 +190,19 @@ def write_results():
                 if os.path.exists(rp):
                     with open(rp) as fh:
                         r[tier] = json.load(fh)
+            # keep meta.json's account of what was run in step with the latest results
+            ran = []
+            for tier in ("quick", "thorough"):
+                if tier in r:
+                    x = r[tier]
+                    ran.append("tools/selftest.py --tier %s: patch applied to a scratch worktree of /repo, ./check %s %s against it -> %s%s" % (
+                        tier, x.get("detected_by_check", prop), tier, x.get("outcome"),
+                        (" (" + ", ".join(x.get("violated_checks", [])) + ")") if x.get("violated_checks") else ""))
+            if meta and ran and meta.get("what_was_run") != ran:
+                meta["what_was_run"] = ran
+                with open(os.path.join(md, "meta.json"), "w") as fh:
+                    json.dump(meta, fh, indent=1)
+                    fh.write("\n")
             rows.append((prop, name, meta, r))
     os.makedirs(os.path.join(VERIF, "selftest"), exist_ok=True)
     with open(os.path.join(VERIF, "selftest", "RESULTS.md"), "w") as fh:
